@@ -214,7 +214,7 @@ def run_program(req, probe):
             if op.get('propagate'):
                 out['params_after'] = snapshot(req.params)
                 raise
-        except Exception as ex:  # noqa
+        except (Exception, GeneratorExit) as ex:  # noqa
             out['ops'].append(('exc', type(ex).__name__, repr(ex)[:200], store))
     out['params_after'] = snapshot(req.params)
     out['done'] = True
@@ -425,6 +425,9 @@ def op_problem(op, acc, obs):
         elif o.kind == 'raise400':
             if obs[0] == '400' and obs[2] == 400 and (store is None or store == {}):
                 return None
+        elif o.kind == 'propagate':
+            if obs[0] == 'exc' and obs[1] == o.value and (store is None or store == {}):
+                return None
         else:
             if obs[0] != 'ret' or not M.same(obs[1], o.value):
                 continue
@@ -435,6 +438,8 @@ def op_problem(op, acc, obs):
                     return None
             elif store == {}:
                 return None
+    if obs[0] == 'ret' and any(o.kind == 'propagate' for o in acc):
+        return 'getter-returned-despite-failed-transform'
     if obs[0] == 'exc':
         return 'getter-raised-non-400'
     if obs[0] == '400':
@@ -689,7 +694,8 @@ def table_program(kind, text, k):
             prog.append(dict(op, fmt=FORMATS[kind][(j + k) % len(FORMATS[kind])]))
         prog.append({'g': kind, 'name': 'p', 'store': True})
     elif kind == 'list':
-        trs = [None, 'int', 'float', 'uuid', 'upper', 'strict']
+        trs = [None, 'int', 'float', 'uuid', 'upper', 'strict', 'first_match', 'lookup', 'type_error', 'generator_exit',
+               'stop_async', 'runtime_error']
         for j, op in enumerate(base):
             prog.append(dict(op, transform=trs[(j + k) % len(trs)]))
         for t in trs:
@@ -758,7 +764,8 @@ def run_table(rec):
         for flavor in FLAVORS:
             if flavor == 'wsgi' and any(ord(c) > 255 for c in q):
                 continue
-            for jcfg in (JCFGS if kind == 'json' else (None,)):
+            # json rows: every handler configuration on one interface (rotating), the rotation on the others
+            for jcfg in (JCFGS if (kind == 'json' and flavor == FLAVORS[k % len(FLAVORS)]) else (None,)):
                 check_request(rec, flavor, q, kb, csv, prog, jcfg=jcfg)
             rec.case(('req', flavor, q, kb, csv))
             rec.count('table.' + kind)
@@ -948,7 +955,8 @@ def random_op(rng, kind, name):
     elif kind in ('datetime', 'date'):
         op['fmt'] = rng.choice(FORMATS[kind])
     elif kind == 'list':
-        op['transform'] = rng.choice([None, None, 'int', 'float', 'uuid', 'upper', 'strict'])
+        op['transform'] = rng.choice([None, None, 'int', 'float', 'uuid', 'upper', 'strict', 'first_match', 'lookup',
+                                      'type_error', 'generator_exit', 'stop_async', 'runtime_error'])
     return op
 
 
@@ -1090,7 +1098,7 @@ def run(rec):
     maxlen = 5 if rec.tier == 'quick' else 6
     if rec.mode != 'pure':
         maxlen = 5          # the twins are fixed artifacts (not rebuilt from edited sources): the quick bound suffices
-    every = 97 if rec.tier == 'quick' else 397
+    every = 193 if rec.tier == 'quick' else 397
 
     # ---- (1) exhaustive strings
     idx = 0
@@ -1102,7 +1110,7 @@ def run(rec):
             s = ''.join(tup)
             check_parse(rec, s, idx // rec.nshards)
             rec.case(s if nontrivial(s) else None)
-            if idx % 11 == 0:
+            if idx % 23 == 0:
                 check_parse_defaults(rec, s)
             if (idx // rec.nshards) % every == 0:
                 kb, csv = COMBOS[(idx // rec.nshards // every) % 4]
@@ -1242,7 +1250,7 @@ def run(rec):
             rec.floor('out.%s.invalid' % g, 20)
     for t in ('int.on-bound', 'int.below-min', 'int.above-max', 'int.in-range', 'float.on-bound', 'float.below-min',
               'float.above-max', 'float.nan-bounds', 'bool.true', 'bool.false', 'bool.blank', 'list.list',
-              'list.list-transformed', 'json.ok', 'uuid.ok', 'datetime.ok', 'date.ok', 'str.open-presence'):
+              'list.list-transformed', 'list.transform-raised', 'json.ok', 'uuid.ok', 'datetime.ok', 'date.ok', 'str.open-presence'):
         rec.floor('out.' + t, 10)
     for c in ('empty_field', 'lone_equals', 'empty_name', 'bare_name', 'equals_run', 'blank_kept', 'blank_dropped', 'plus',
               'escape_in_name', 'escape_in_value', 'encoded_comma_csv', 'encoded_comma', 'trailing_percent', 'percent_one_hex',
